@@ -35,7 +35,7 @@ class Budget(BaseException):
 class Explorer:
     cur = None
 
-    def __init__(self, timeout_ms=10000, max_paths=200000, max_seconds=None, split_atoms=False, feas_timeout_ms=None):
+    def __init__(self, timeout_ms=10000, max_paths=200000, max_seconds=None, split_atoms=False, feas_timeout_ms=None, push_feas=False):
         self.solver = z3.Solver()
         self.timeout_ms = timeout_ms
         self.solver.set("timeout", timeout_ms)
@@ -55,6 +55,8 @@ class Explorer:
         self._fresh = 0
         self.notes = {}
         self.split_atoms = split_atoms
+        self.push_feas = push_feas   # branch feasibility by push/add/check/pop (strong on non-linear arithmetic, slower) instead
+        #                              of check(assumption) (fast; gives up early on non-linear conditions -> both branches kept)
         self.feas_timeout_ms = feas_timeout_ms or timeout_ms
         self.halt = False     # set by the harness once a replay-confirmed counterexample exists: stop exploring
         self.part = None      # (index, nparts, depth): explore only paths whose first `depth` decisions hash to index
@@ -69,7 +71,9 @@ class Explorer:
         went from `unknown` after 10 s to `sat` in 1 s)"""
         t = time.time()
         self.nq += 1
-        if extra:
+        if extra and not self.push_feas:
+            r = self.solver.check(*extra)
+        elif extra:
             self.solver.push()
             try:
                 self.solver.add(*extra)
